@@ -44,7 +44,7 @@ func pathDOf(p Path) clipper.PathD {
 	for i, q := range p {
 		out[i] = clipper.PointD{X: float64(q[0]), Y: float64(q[1])}
 	}
-	return out
+	return regPathD(out)
 }
 
 func performCall(c *callRec) (ok bool) {
